@@ -83,6 +83,15 @@ CHECKS["C05"] = dict(
     note="A random ordering of k items escapes N runs with probability (1/k!)^(N-1); inputs have >=3 rules/files per collection. Environment rotation is a sample, not all environments.",
     ref="DESIGN.md §6 P-C05")
 
+CHECKS["C09"] = dict(
+    technique="runtime monitoring: cross-channel monitor (verbose record tree vs structured report of the same evaluation)",
+    text="Random programs with distinct rule names and a unique custom message on every clause are evaluated on random documents; the "
+         "structured report (library and `validate --structured -o json`) is checked against the verbose record tree of the same "
+         "evaluation: each rule in exactly the partition its status dictates, file-status rule, batch report over 1-3 rules files == union of "
+         "single reports, every reported leaf check attributable (by message) to a FAIL value check in that rule's own subtree.",
+    note="The verbose tree is the ground truth (its own consistency is C02). Reported leaves are matched by custom message; leaves without a message match any FAIL record of the rule.",
+    ref="DESIGN.md §6 P-C09")
+
 PENDING = {}
 
 
